@@ -2337,7 +2337,8 @@ func (c *Conn) notify(ctx context.Context, level alert.Level, desc alert.Descrip
 					Description: desc,
 				},
 			},
-			ShouldWrapCID: c.state.ShouldWrapConnectionID(),
+			// tls12_cid records are protected records [RFC9146 Section-4]: an alert of epoch 0 goes out plain.
+			ShouldWrapCID: c.state.ShouldWrapConnectionID() && common.LocalEpoch() != 0,
 			ShouldEncrypt: c.isHandshakeCompletedSuccessfully(),
 		},
 	})
